@@ -170,3 +170,35 @@ Q(name="e2_stream_freed", props=["C11"], func=r"state::<impl[^>]*>::stream_freed
   replay=("streams_stream_freed_native", lambda m: dict(
       server=m.get("|in:*_1.0#discr|", 0), raw_id=m.get("|in:_2.0|", 0), half_recv=m.get("|in:_3#discr|", 0),
       other_present=max([v for k, v in m.items() if k.startswith("|call:")] + [0]))))
+
+
+# ------------------------------------------------------------------ C05: SendStream::reset restores exactly the send window
+_SS_SCALARS = ["max_data", "data_sent", "unacked_data", "send_window", "data_recvd", "local_max_data", "receive_window", "send_streams"]
+
+
+def reset_pre(c):
+    return "true"
+
+
+def reset_post(c, p):
+    root = "**_1.%d" % c.field("connection/streams/mod.rs", "SendStream", "state")
+    ok = eq(p.ret("#discr", ("bv", 64, True)), bv(0))
+    unacked = p.call_result(r"SendBuffer::unacked")
+    conj = []
+    for name in _SS_SCALARS:
+        k = "%s.%d" % (root, _ss(c, name))
+        before, after = c.inp(k, BV64), p.out(k, BV64)
+        if name == "unacked_data" and unacked is not None:
+            conj.append(eq(after, "(bvsub %s %s)" % (before, unacked)))
+        else:
+            conj.append(eq(after, before))
+    # success <=> the window was handed back (the buffer was consulted)
+    conj.append("true" if unacked is not None else not_(ok))
+    return and_(*conj)
+
+
+Q(name="e2_sendstream_reset", props=["C05"], func=r"streams/mod\.rs:2\d\d:1: [^>]*>::reset$",
+  pure=[r"max_send_data", r"SendBuffer::unacked", r"get_mut", r"call_once"],
+  functions=["SendStream::reset"], pre=reset_pre, post=reset_post, allowed_panics=r"attempt to compute",
+  bounds="every StreamsState accounting state; map lookup, Send::reset, Vec::push opaque; the only connection-level counter that may change is unacked_data, by exactly SendBuffer::unacked() of the reset stream",
+  replay=("streams_sendstream_reset_native", lambda m: dict(written=5, other_data_sent=100)))
